@@ -1,10 +1,10 @@
-\* negative control: wants not validated against the advertised refs -> WantValidation must fail
+\* negative control: seeded model defect "NoWantCheck"; TLC must report WantValidation violated
 SPECIFICATION Spec
 CONSTANTS
   NC = 2
   NTP = 3
   NT = 1
-  MaxHeads = 3
+  MaxHeads = 2
   MaxWants = 1
   Modes = {"detailed"}
   IncTag = {FALSE}
